@@ -31,6 +31,7 @@ type scheduler struct {
 	yieldCh chan *goroutine
 	nextID  int
 	switches int
+	dead    chan struct{} // closed when the path ends: every parked or late goroutine of the path dies
 }
 
 type vtimer struct {
@@ -71,9 +72,34 @@ func (i *Interp) chanLen(c *channel) int {
 	return len(c.buf)
 }
 
+// wake hands the baton to g (no-op when the path is already dead).
+func (s *scheduler) wake(g *goroutine) {
+	select {
+	case g.resume <- true:
+	case <-s.dead:
+	}
+}
+
+// park waits for the baton; a goroutine of a dead path unwinds with goKill (never runs target code again).
+func (s *scheduler) park(g *goroutine) {
+	select {
+	case ok := <-g.resume:
+		if !ok {
+			panic(goKill{})
+		}
+		select {
+		case <-s.dead:
+			panic(goKill{})
+		default:
+		}
+	case <-s.dead:
+		panic(goKill{})
+	}
+}
+
 func (i *Interp) ensureSched() *scheduler {
 	if i.sched == nil {
-		i.sched = &scheduler{}
+		i.sched = &scheduler{dead: make(chan struct{})}
 		g := &goroutine{id: 0, resume: make(chan bool)}
 		i.sched.gs = []*goroutine{g}
 		i.sched.nextID = 1
@@ -170,14 +196,12 @@ func (i *Interp) reschedule() {
 		}
 		// transfer
 		i.curG = g
-		g.resume <- true
+		s.wake(g)
 		// wait until someone schedules me again
 		if me.done {
 			return
 		}
-		if ok := <-me.resume; !ok {
-			panic(goKill{})
-		}
+		s.park(me)
 		i.curG = me
 		if me.blocked == nil || me.blocked() {
 			return
@@ -196,9 +220,6 @@ func (i *Interp) goStart(fr *frame, instr *ssa.Go, fn value, args []value) {
 	s.gs = append(s.gs, g)
 	starter := i.curG
 	go func() {
-		if ok := <-g.resume; !ok {
-			return
-		}
 		defer func() {
 			r := recover()
 			g.done = true
@@ -212,6 +233,7 @@ func (i *Interp) goStart(fr *frame, instr *ssa.Go, fn value, args []value) {
 			// pass control on
 			i.finishGoroutine(g)
 		}()
+		s.park(g)
 		fr2 := &frame{i: i, g: g}
 		_ = fr2
 		call(i, nil, token.NoPos, fn, args)
@@ -221,22 +243,86 @@ func (i *Interp) goStart(fr *frame, instr *ssa.Go, fn value, args []value) {
 	i.yield(fr)
 }
 
+// spawn creates a runnable goroutine for fn(args) without making the creation a scheduling point
+// (used for timer callbacks: time.AfterFunc runs its function in its own goroutine).
+func (i *Interp) spawn(fn value, args []value) {
+	s := i.ensureSched()
+	if len(s.gs) >= i.cfg.MaxGoroutines+8 {
+		panic(pathAbort{"unwind", fmt.Sprintf("more than %d goroutines (timer callbacks included)", i.cfg.MaxGoroutines+8)})
+	}
+	g := &goroutine{id: s.nextID, resume: make(chan bool)}
+	s.nextID++
+	s.gs = append(s.gs, g)
+	go func() {
+		defer func() {
+			r := recover()
+			g.done = true
+			if r != nil {
+				if _, killed := r.(goKill); killed {
+					return
+				}
+				g.panicV = r
+			}
+			i.finishGoroutine(g)
+		}()
+		s.park(g)
+		call(i, nil, token.NoPos, fn, args)
+	}()
+}
+
+// afterFunc arms a virtual timer: from now on it may fire at any scheduling point (virtual time
+// only orders timers among themselves); firing starts fn in its own goroutine.
+func (i *Interp) afterFunc(d int64, fn value) *vtimer {
+	s := i.ensureSched()
+	t := &vtimer{at: s.now + d, id: len(s.timers)}
+	t.fn = func() { i.spawn(fn, nil) }
+	s.timers = append(s.timers, t)
+	return t
+}
+
+// quiesceNow lets every other goroutine and armed timer run until none can; the caller resumes at
+// quiescence (all others blocked or finished, no timer armed). Every schedule on the way is explored.
+func (i *Interp) quiesceNow(fr *frame) {
+	s := i.ensureSched()
+	me := i.curG
+	i.block(fr, "Quiesce", func() bool {
+		for _, g := range s.gs {
+			if g == me || g.done {
+				continue
+			}
+			if g.blocked == nil || g.blocked() {
+				return false
+			}
+		}
+		return !i.hasArmedTimer()
+	})
+	i.checkChildPanic()
+}
+
 // finishGoroutine: goroutine g has returned; pick someone else to run (host goroutine exits after).
 func (i *Interp) finishGoroutine(g *goroutine) {
 	s := i.sched
+	if s == nil {
+		return // path already over
+	}
+	select {
+	case <-s.dead:
+		return
+	default:
+	}
 	defer func() {
 		// a pathAbort raised while choosing must reach the main goroutine
 		if r := recover(); r != nil {
 			g.panicV = r
 			main := s.gs[0]
 			i.curG = main
-			main.resume <- true
+			s.wake(main)
 		}
 	}()
 	if g.panicV != nil {
 		main := s.gs[0]
 		i.curG = main
-		main.resume <- true
+		s.wake(main)
 		return
 	}
 	for {
@@ -257,7 +343,7 @@ func (i *Interp) finishGoroutine(g *goroutine) {
 			// everyone blocked: wake main so that it reports quiescence/deadlock
 			main := s.gs[0]
 			i.curG = main
-			main.resume <- true
+			s.wake(main)
 			return
 		}
 		c := 0
@@ -275,7 +361,7 @@ func (i *Interp) finishGoroutine(g *goroutine) {
 		}
 		o := runnable[c]
 		i.curG = o
-		o.resume <- true
+		s.wake(o)
 		return
 	}
 }
@@ -305,16 +391,9 @@ func (i *Interp) killGoroutines() {
 	if i.sched == nil {
 		return
 	}
-	for _, g := range i.sched.gs[1:] {
-		if !g.done {
-			g.done = true
-			select {
-			case g.resume <- false:
-			default:
-				// goroutine is not waiting on resume (it is the one that aborted); it unwinds by itself
-			}
-		}
-	}
+	// closing dead reaches every goroutine of this path wherever it is: parked ones unwind now,
+	// one that is between two scheduler operations unwinds at its next park/wake
+	close(i.sched.dead)
 	i.sched = nil
 	i.curG = nil
 }
